@@ -6,7 +6,7 @@ from .. import mc, tlc, eqbind
 from ..tlaval import to_json
 
 ALL_BEHS = ['equal', 'different', 'bare', 'playerRaises', 'extractorRaises', 'comparatorRaises', 'dataRaises', 'exits', 'hangs', 'late']
-PROC_BEHS = {'exits', 'hangs', 'late', 'unreadable'}
+PROC_BEHS = {'exits', 'hangs', 'late', 'unreadable', 'idleExit'}
 INVS = ['Attribution', 'OneEach', 'RecycleBound', 'OneWorker']
 
 
@@ -26,7 +26,7 @@ def scenarios(rep, s, name, consts, cap, rnd, liveness=True):
         if st['pc'] != 'done':
             continue
         key = (tuple(st['beh']), st['stop'], tuple(sorted(st['lateput'])))
-        out[key] = {'beh': list(st['beh']), 'stop': st['stop'], 'late': sorted(st['lateput']),
+        out[key] = {'beh': list(st['beh']), 'stop': st['stop'], 'late': sorted(st['lateput']), 'orphans': sorted(st['orphans']),
                     'out': [dict(o) for o in st['out']], 'rate': consts['Rate']}
     sc = list(out.values())
     rnd.shuffle(sc)
@@ -102,7 +102,8 @@ def run(rep, tier, seed, judge=judge_c08, prop_filter=None, extra=None):
                 '= scenario with at least one fault behaviour; distinct = (behaviours, stop, late answers, rate)')
     rep.assumptions = ['worker processes are threads over fake queues: fork\'s memory copy is approximated by pickling what '
                        'crosses the queues; players are pure', 'time passes only when no participant can move (urgency)',
-                       'a worker that dies between two tasks is outside the quantifier']
+                       'a worker that dies while idle (between two tasks) belongs to no recording: the recording that is handed '
+                       'to it next is reported as "died" (modelled as observed: `orphans`), every other recording keeps its own verdict']
     rnd = random.Random(seed + 8)
     quick = tier == 'quick'
     with tlc.Scratch() as s:
@@ -119,11 +120,18 @@ def run(rep, tier, seed, judge=judge_c08, prop_filter=None, extra=None):
             sc += scenarios(rep, s, 'n4', consts(4, ['equal', 'different', 'playerRaises', 'exits', 'hangs', 'late'], 2, [4, 2]), 700, rnd)
             sc += scenarios(rep, s, 'n3all', consts(3, ALL_BEHS, 1, [3, 1]), 300, rnd)
             sc += scenarios(rep, s, 'n3r3', consts(3, ['equal', 'extractorRaises', 'exits', 'late'], 3, [3]), 150, rnd)
+            # a worker that dies while idle, between two tasks: the next recording is reported as "died" (documented
+            # deviation), the one after it is unaffected
+            sc += scenarios(rep, s, 'n4idle', consts(4, ['equal', 'different', 'idleExit', 'late'], 2, [4]), 200, rnd)
+            sc += scenarios(rep, s, 'n4idle3', consts(4, ['equal', 'idleExit', 'exits'], 3, [4, 2]), 100, rnd)
         else:
             sc += scenarios(rep, s, 'n5', consts(5, ['equal', 'different', 'playerRaises', 'exits', 'hangs', 'late'], 2, [5, 3, 1]), 30000, rnd, liveness=False)
             sc += scenarios(rep, s, 'n4all', consts(4, ALL_BEHS, 2, [4, 2]), 20000, rnd)
             sc += scenarios(rep, s, 'n4r1', consts(4, ['equal', 'comparatorRaises', 'exits', 'hangs', 'late'], 1, [4, 1]), 3000, rnd)
             sc += scenarios(rep, s, 'n4r3', consts(4, ['equal', 'extractorRaises', 'exits', 'hangs', 'late'], 3, [4, 3]), 3000, rnd)
+            sc += scenarios(rep, s, 'n5idle', consts(5, ['equal', 'different', 'idleExit', 'late', 'hangs'], 2, [5, 3]), 6000, rnd, liveness=False)
+            sc += scenarios(rep, s, 'n4idle3', consts(4, ['equal', 'idleExit', 'exits', 'playerRaises'], 3, [4, 2]), 3000, rnd)
+            sc += scenarios(rep, s, 'n4idle1', consts(4, ['equal', 'idleExit', 'late'], 1, [4]), 1000, rnd)
         for name, c, cap in (extra(tier) if extra else []):
             sc += scenarios(rep, s, name, c, cap, rnd)
     tasks = []
@@ -171,7 +179,7 @@ def impl_level(rep, impl):
                 t['id'] = i + 1
             name = 'MC_%s_impl_%d_%d' % (rep.prop, n, rate)
             mc.write_mc(s, 'EqualizerImplTrace', name,
-                        consts(n, ALL_BEHS + ['unreadable'], rate, list(range(1, n + 1))), invariants=['TraceInv'],
+                        consts(n, ALL_BEHS + ['unreadable', 'idleExit'], rate, list(range(1, n + 1))), invariants=['TraceInv'],
                         spec='TraceSpec', constraints=['Report'])
             try:
                 r, acc, rej = tracecheck.validate(s, name, name + '.cfg', traces)
